@@ -62,12 +62,23 @@ def addFile (name : List Nat) (contents : Bytes) (sector : Nat) (kids : List Nod
   if name.length + 1 > 32 then .err "name-too-long"
   else pure (kept ++ [Node.mk (newMeta name contents.length sector) contents []])
 
-/-- `InsertMSISignature(cdf, pkcs, exsig)`: the extended-signature stream is added or replaced when `exsig` is not
-    empty and deleted otherwise; then the signature stream is added or replaced -/
-def insertMSISignature (root : Node) (pkcs exsig : Bytes) (s₁ s₂ : Nat) : Res Node := do
+/-- no entry of the root storage is taken for a signature stream by `DeleteFile` (case folding) without being one
+    for the digest (exact comparison): what `CheckMSISignatureNames` tests -/
+def noAliasB (kids : List Node) : Bool :=
+  kids.all (fun n => (!equalFold (goName n.meta) sigName || goName n.meta == sigName) &&
+                     (!equalFold (goName n.meta) sigExName || goName n.meta == sigExName))
+
+/-- `InsertMSISignature(cdf, pkcs, exsig)` before the repair of Fmsi-fold: the extended-signature stream is added or
+    replaced when `exsig` is not empty and deleted otherwise; then the signature stream is added or replaced -/
+def insertMSISignatureOrig (root : Node) (pkcs exsig : Bytes) (s₁ s₂ : Nat) : Res Node := do
   let k1 ← if exsig.length > 0 then addFile sigExName exsig s₁ root.kids else deleteFile sigExName root.kids
   let k2 ← addFile sigName pkcs s₂ k1
   pure (.mk root.meta root.content k2)
+
+/-- `InsertMSISignature(cdf, pkcs, exsig)`: `CheckMSISignatureNames` refuses a root entry whose name differs from a
+    signature stream name only by case; then as before -/
+def insertMSISignature (root : Node) (pkcs exsig : Bytes) (s₁ s₂ : Nat) : Res Node :=
+  if !noAliasB root.kids then .err "alias" else insertMSISignatureOrig root pkcs exsig s₁ s₂
 
 /-! ### `VerifyMSI` -/
 
@@ -119,23 +130,43 @@ def verifyMSI (H : Nat → Bytes → Bytes) (cms : Bytes → Res CmsInfo) (root 
 
 /-! ### the signer module -/
 
-/-- `transform` → `GetReader`/`sign` → `Apply` of signers/msi: the pre-hash unless `--no-extended-sig`; the imprint
-    from the tar form (`MsiToTar`, `DigestMsiTar`); `mk alg imprint` = the PKCS#7 blob `SignMSIImprint` returns;
-    `InsertMSISignature` with the blob and the pre-hash -/
+/-- `transform` → `GetReader`/`sign` → `Apply` of signers/msi: `CheckMSISignatureNames`; the pre-hash unless
+    `--no-extended-sig`; the imprint from the tar form (`MsiToTar`, which refuses reserved tar names, `DigestMsiTar`);
+    `mk alg imprint` = the PKCS#7 blob `SignMSIImprint` returns; `InsertMSISignature` with the blob and the pre-hash -/
 def signMSI (H : Nat → Bytes → Bytes) (mk : Nat → Bytes → Bytes) (alg : Nat) (noExt : Bool) (root : Node)
+    (s₁ s₂ : Nat) : Res Node :=
+  if !noAliasB root.kids then .err "alias"
+  else do
+    let exsig ← if noExt then pure [] else (do let p ← prehashMsiDir root; pure (H alg p))
+    let ms ← msiToTar root
+    let sum := H alg (digestMsiTar (H alg) (!noExt) ms)
+    insertMSISignature root (mk alg sum) exsig s₁ s₂
+
+/-! ### the code before the repairs of Fmsi-fold and Fmsi-tar (for the witness theorems) -/
+
+def digestMSI2Orig (H : Bytes → Bytes) (root : Node) (extended : Bool) : Res (Bytes × Bytes) := do
+  let pre ← if extended then (do let p ← prehashMsiDirOrig root; pure (H p)) else pure []
+  let main ← hashMsiDirOrig root
+  pure (H (pre ++ main), pre)
+
+def verifyMSIOrig (H : Nat → Bytes → Bytes) (cms : Bytes → Res CmsInfo) (root : Node) : Res (Bytes × CmsInfo) := do
+  let (sig, ex) ← locate root.kids [] none
+  if sig.length = 0 then .err "notsigned"
+  else do
+    let ci ← cms sig
+    let (imprint, prehash) ← digestMSI2Orig (H ci.alg) root ex.isSome
+    if ex.isSome ∧ some prehash ≠ ex then .err "exmismatch"
+    else if imprint ≠ ci.digest then .err "mismatch"
+    else pure (sig, ci)
+
+def signMSIOrig (H : Nat → Bytes → Bytes) (mk : Nat → Bytes → Bytes) (alg : Nat) (noExt : Bool) (root : Node)
     (s₁ s₂ : Nat) : Res Node := do
-  let exsig ← if noExt then pure [] else (do let p ← prehashMsiDir root; pure (H alg p))
-  let ms ← msiToTar root
+  let exsig ← if noExt then pure [] else (do let p ← prehashMsiDirOrig root; pure (H alg p))
+  let ms ← msiToTarOrig root
   let sum := H alg (digestMsiTar (H alg) (!noExt) ms)
-  insertMSISignature root (mk alg sum) exsig s₁ s₂
+  insertMSISignatureOrig root (mk alg sum) exsig s₁ s₂
 
 /-! ### executable forms of the hypotheses (printed by the driver for every document) -/
-
-/-- no entry of the root storage is taken for a signature stream by `DeleteFile` (case folding) without being one
-    for the digest (exact comparison) -/
-def noAliasB (kids : List Node) : Bool :=
-  kids.all (fun n => (!equalFold (goName n.meta) sigName || goName n.meta == sigName) &&
-                     (!equalFold (goName n.meta) sigExName || goName n.meta == sigExName))
 
 /-- the entries of the root storage carrying a signature name are streams -/
 def sigsAreStreamsB (kids : List Node) : Bool :=
